@@ -113,7 +113,7 @@ type c18CE2 struct {
 }
 
 type c18COp struct {
-	kind byte // N C W B A E K H X R
+	kind byte // N C W B A E K H X R D
 	c    int
 	ids  []int
 }
@@ -122,8 +122,8 @@ func (op c18COp) enc() string {
 	switch op.kind {
 	case 'N':
 		return "N"
-	case 'C':
-		return "C" + strconv.Itoa(op.c)
+	case 'C', 'D':
+		return string(op.kind) + strconv.Itoa(op.c)
 	case 'W':
 		p := make([]string, len(op.ids))
 		for i, id := range op.ids {
@@ -138,6 +138,7 @@ func (op c18COp) enc() string {
 type c18CSim struct {
 	ws, before, after        []int
 	cerr, chk, hook, xf, aro int // -1 = unset; aro 0/1
+	digest                   bool
 }
 
 func c18Ids(l []int) string {
@@ -176,7 +177,7 @@ func c18Uniq(l []int) string {
 
 func TestVerif_C18_clone(t *testing.T) {
 	s := verifh.New(t, "C18", "clone",
-		"programs of 4..16 operations on real clients: C(), Clone of any existing client (also of clones), WrapRoundTrip / WrapRoundTripFunc batches of 0..3 wrappers, OnBeforeRequest, OnAfterResponse, SetCommonErrorResult (3 types), SetResultStateCheckFunc, OnError, SetResponseBodyTransformer, Disable/EnableAutoReadResponse, in any order (wrappers and stages installed before AND after cloning, on parents and on copies); then on EVERY client of the program a verb-style call that ends in error (status 500 + json body, a request-level middleware returning an error) and a second one (status 300) for the auto-read switch; observed: wrappers entered (order), whose transport / roundTrip ran, which request / response middleware ran (order), type of the bound common error object, state checker, error hook and body transformer consulted, body auto-read or not; vs Req.CloneChain.effective and vs an independent value-semantics simulation; non-trivial = the client is a clone or has a clone")
+		"programs of 4..16 operations on real clients: C(), Clone of any existing client (also of clones), WrapRoundTrip / WrapRoundTripFunc batches of 0..3 wrappers, OnBeforeRequest, OnAfterResponse, SetCommonErrorResult (3 types), SetResultStateCheckFunc, OnError, SetResponseBodyTransformer, Disable/EnableAutoReadResponse, SetCommonDigestAuth (before, between and after the response middleware registrations, repeated, on parents and copies), in any order (wrappers and stages installed before AND after cloning, on parents and on copies); then on EVERY client of the program a verb-style call that ends in error (status 500 + json body, a request-level middleware returning an error) and a second one (status 300) for the auto-read switch; observed: wrappers entered (order), whose transport / roundTrip ran, which request / response middleware ran (order), type of the bound common error object, state checker, error hook and body transformer consulted, body auto-read or not; vs Req.CloneChain.effective and vs an independent value-semantics simulation; non-trivial = the client is a clone or has a clone")
 	r := s.Rand()
 	hist := newC18Hist(s)
 	cetypes := []interface{}{&c18CE0{}, &c18CE1{}, &c18CE2{}}
@@ -213,7 +214,19 @@ func TestVerif_C18_clone(t *testing.T) {
 			}
 			ci := r.Intn(len(clients))
 			c, sim := clients[ci], sims[ci]
-			switch x := r.Intn(20); {
+			switch x := r.Intn(22); {
+			case x >= 20: // SetCommonDigestAuth: one more built-in response stage; the user stages stay as they are
+				ops = append(ops, c18COp{kind: 'D', c: ci})
+				c.SetCommonDigestAuth("u", "p")
+				switch {
+				case len(sim.after) > 0 && sim.digest:
+					hist.Count("digest-again-after-stages")
+				case len(sim.after) > 0:
+					hist.Count("digest-after-stages")
+				default:
+					hist.Count("digest-first")
+				}
+				sim.digest = true
 			case x < 4: // Clone
 				ops = append(ops, c18COp{kind: 'C', c: ci})
 				cc := c.Clone()
@@ -359,11 +372,15 @@ func TestVerif_C18_clone(t *testing.T) {
 			if len(sim.after) > 0 {
 				hist.Count("after>0")
 			}
+			if sim.digest && len(sim.after) > 0 {
+				hist.Count("call:digest+after>0")
+			}
 			hist.Count("cerr=" + c18OptID(sim.cerr))
 			s.Case(fmt.Sprintf("c18clone 1 %s %d", prog, ci), impl, impl == want, "", nontriv,
 				fmt.Sprintf("program %s; call on client %d -> %s (own settings: %s)", prog, ci, impl, want))
 		}
 	}
 	s.Finish()
-	hist.need(t, "client=clone", "client=parent", "clone-with-wrappers", "after>0", "cerr=0", "cerr=1", "cerr=2", "cerr=-")
+	hist.need(t, "client=clone", "client=parent", "clone-with-wrappers", "after>0", "cerr=0", "cerr=1", "cerr=2", "cerr=-",
+		"digest-first", "digest-after-stages", "digest-again-after-stages", "call:digest+after>0")
 }
